@@ -207,6 +207,26 @@ def model_faults(rng: random.Random, gen, ent, enc, info):
         hits = M.spec_lookup(M.declared_names(faulty), node.fqn, port.type.ids)
         if len(hits) == 2:
             out.append(('port-type-ambiguous', faulty, enc))
+
+    # the same fully qualified name defined twice (a second block of the namespace re-opened
+    # further down): the port's interface, the encapsulee itself
+    def reopened_with(path, element):
+        def mutate(model, _c):
+            holder = model.elements
+            for ns in path[:-1]:
+                again = M.Namespace([ns], [])
+                holder.append(again)
+                holder = again.elements
+            holder.append(element)
+        return mutate
+    target = (port.type.target or '').split('.')
+    if port.type.target and any(tuple(target) == tuple(f) for k, f, _o in decls if k == 'interfaces'):
+        out.append(('port-type-defined-twice',
+                    variant(reopened_with(target, M.Interface([target[-1]]))), enc))
+    if isinstance(comp, M.Component):
+        out.append(('encapsulee-defined-twice',
+                    variant(reopened_with(info['fqn'].split('.'), M.Component(
+                        [info['fqn'].split('.')[-1]], []))), enc))
     return out
 
 
@@ -260,8 +280,12 @@ def _worker(arg):
     # every eighth model and configuration is of big size: ten and more ports and events, long
     # identifiers, file name, prefix, one-line copyright notice, creator text without blanks
     gen, ent, enc, info = cfggen.gen_shell_case(rng, big=stream % 8 == 5)
+    if stream % 8 == 3:
+        # the model of a large project: some three hundred declarations around the part built
+        gen.add_padding(300)
     doc = M.to_json(gen.model)
-    agg = {'violations': [], 'counts': {'valid_builds_of_big_size': int(bool(enc.get('big')))},
+    agg = {'violations': [], 'counts': {'valid_builds_of_big_size': int(bool(enc.get('big'))),
+                                        'models_with_hundreds_of_declarations': int(stream % 8 == 3)},
            'cases': []}
     cases = [{'doc': doc, 'cfg': enc, 'expect': 'success', 'fault': 'none'}]
     if stream % 4 == 1:
@@ -358,7 +382,8 @@ def eval_deep(arg):
 def main(tier: str) -> int:
     run = common.Run(PROP, tier, level='fault_enumeration')
     n = 150 if tier == 'quick' else 15000
-    run.require('outcome_success', 'valid_builds_of_big_size', 'outcome_library', 'complete_file_sets', 'fault_unknown-encapsulee',
+    run.require('outcome_success', 'valid_builds_of_big_size', 'models_with_hundreds_of_declarations',
+                'fault_port-type-defined-twice', 'fault_encapsulee-defined-twice', 'outcome_library', 'complete_file_sets', 'fault_unknown-encapsulee',
                 'fault_port-type-unresolvable', 'fault_port-type-ambiguous',
                 'fault_uncovered-port', 'fault_mc-unknown-claim-event')
     for _item, res in run.pmap(_worker, [(run.seed, i) for i in range(n)], chunksize=4,
